@@ -29,6 +29,9 @@ CHECKS = {
  'C09': dict(technique='symbolic execution of PhaseSpace::updateX/YProjection, integrate, normalize, average, variance and the copy constructor from LLVM IR with symbolic grid data, projections and charges; z3 NRA',
              text='bounded symbolic verification: after projection+integrate+normalize+refresh every bunch integrates to exactly its share (empty buckets to zero, total to the sum) for all non-negative data; mean/variance/rms are exactly the first/second moments of that bunch\'s projection divided by its measured charge and mention no other bunch; a copy has term-identical data, projections, charges, integral and moments; grids 4-8, 1-3 bunches, patterns with an empty bucket',
              ref='4/C09'),
+ 'C10': dict(technique='symbolic execution of the HDF5File constructor and every append function from LLVM IR against a recorder model of the HDF5 C++ API (data-flow terms from symbolic sources to datasets/attributes), plus bounded path exploration of main()\'s loop for record bookkeeping',
+             text='bounded symbolic verification (partial): every axis dataset, unit attribute and impedance dataset carries the term of the quantity the statement names for all values; each append extends exactly the expected datasets by one record at offset = record count with the named source array, bunch b in row b (1-3 bunches, first and second record); record/time-axis bookkeeping over all paths of <= K loop iterations of main',
+             ref='4/C10'),
  'C15': dict(technique='symbolic execution of every applyTo (kick, drift, 4 Fokker-Planck tracking models) with symbolic position, displacement field and noise draw; z3 decides containment and particle==blob-centroid',
              text='bounded symbolic verification: for every real start position on the grid, every (unbounded) displacement field and noise draw the tracked coordinate stays in [0,n-1]^2; a particle on a grid point or half-way between rows moves exactly like the centroid of a unit blob transported by apply() (it>=2); the stochastic model damps towards the zero-energy bin with N(0,sqrt(2e1)/delta) noise',
              ref='4/C15'),
